@@ -151,7 +151,11 @@ func runC09(c *Ctx) {
 			r.Add("R3", "write-caller:"+c.FuncKey(fn), c.InstrPos(cs), c.FuncKey(fn), "only the send goroutine writes lines to the socket (a second writer would interleave with a pending write)", ok, kindName(cs)+" in "+c.FuncKey(fn))
 		}
 	}
-	// (b) socket writers
+	// (b) socket writers: the write function, or the one helper it calls with its line to do the socket write
+	leaf, via := c.writerLeaf(writeFn)
+	if leaf == nil {
+		leaf = writeFn
+	}
 	nW := 0
 	for _, fn := range funcs {
 		funcInstrs(fn, func(in ssa.Instruction) {
@@ -186,7 +190,7 @@ func runC09(c *Ctx) {
 				return // lifecycle
 			case n == "(*bufio.Writer).WriteString":
 				nW++
-				ok, why := fn == writeFn, "in "+c.FuncKey(fn)
+				ok, why := fn == leaf, "in "+c.FuncKey(fn)
 				if ok {
 					ok, why = c.crlfOfParam(cc.Args[1], fn)
 				}
@@ -195,8 +199,10 @@ func runC09(c *Ctx) {
 				}
 				r.Add("R3", "socket-write:"+c.FuncKey(fn)+":WriteString", c.InstrPos(in), c.FuncKey(fn), "the only data write is WriteString(line+CRLF) in the write function", ok, why)
 			case n == "(*bufio.Writer).Flush":
-				ok := fn == writeFn && c.LoopDepth(in.Block()) == 0
+				ok := fn == leaf && c.LoopDepth(in.Block()) == 0
 				r.Add("R3", "socket-write:"+c.FuncKey(fn)+":Flush", c.InstrPos(in), c.FuncKey(fn), "Flush only in the write function, once", ok, "in "+c.FuncKey(fn))
+			case c.socketLifecycleHelper(cc):
+				return // set-up helper: wraps / handshakes / closes only
 			default:
 				r.Add("R3", "socket-use:"+c.FuncKey(fn)+":"+n, c.InstrPos(in), c.FuncKey(fn), "no other function is handed the socket or its writer", false, "socket/writer passed to "+n)
 			}
@@ -206,7 +212,7 @@ func runC09(c *Ctx) {
 	if writeFn != nil {
 		// on the success path: WriteString then Flush, each exactly once
 		var ws, fl []ssa.Instruction
-		funcInstrs(writeFn, func(in ssa.Instruction) {
+		funcInstrs(leaf, func(in ssa.Instruction) {
 			switch calleeName(callOf(in)) {
 			case "(*bufio.Writer).WriteString":
 				ws = append(ws, in)
@@ -216,17 +222,40 @@ func runC09(c *Ctx) {
 		})
 		ok := len(ws) == 1 && len(fl) == 1 && instrDominates(ws[0], fl[0])
 		why := fmt.Sprintf("%d WriteString, %d Flush", len(ws), len(fl))
-		if ok {
-			// every return that returns a nil error is dominated by the Flush; returns not dominated return a non-nil error
-			funcInstrs(writeFn, func(in ssa.Instruction) {
+		succeedsAfter := func(fn *ssa.Function, step ssa.Instruction) {
+			// every return that returns a nil error is dominated by the step; returns not dominated return a non-nil error
+			funcInstrs(fn, func(in ssa.Instruction) {
 				rt, isRet := in.(*ssa.Return)
 				if !isRet || len(rt.Results) != 1 {
 					return
 				}
-				if !instrDominates(fl[0], rt) && isNilConst(rt.Results[0]) {
-					ok, why = false, "success return at "+c.InstrPos(rt)+" is not preceded by Flush"
+				if !instrDominates(step, rt) && isNilConst(retVal(rt, 0)) {
+					ok, why = false, "success return at "+c.InstrPos(rt)+" is not preceded by "+c.InstrPos(step)
 				}
 			})
+		}
+		if ok {
+			succeedsAfter(leaf, fl[0])
+			if via != nil {
+				// the write function succeeds only after the helper call, and only when it reported no error
+				succeedsAfter(writeFn, via)
+				funcInstrs(writeFn, func(in ssa.Instruction) {
+					rt, isRet := in.(*ssa.Return)
+					if !isRet || len(rt.Results) != 1 || !isNilConst(retVal(rt, 0)) {
+						return
+					}
+					nilEdge := false
+					for _, cd := range CondsAt(rt.Block()) {
+						cd = unwrapNot(cd)
+						if bo, isB := cd.V.(*ssa.BinOp); isB && (bo.Op == token.EQL || bo.Op == token.NEQ) && (bo.X == ssa.Value(via) || bo.Y == ssa.Value(via)) && (isNilConst(bo.X) || isNilConst(bo.Y)) {
+							nilEdge = (bo.Op == token.EQL) == cd.True
+						}
+					}
+					if !nilEdge {
+						ok, why = false, "success return at "+c.InstrPos(rt)+" does not depend on the socket-write helper having succeeded"
+					}
+				})
+			}
 		}
 		r.Add("R3", "write-then-flush:"+c.FuncKey(writeFn), c.Pos(writeFn.Pos()), c.FuncKey(writeFn), "write: one WriteString then one Flush before every success return", ok, why)
 		r.Funcs[c.FuncKey(writeFn)] = true
@@ -248,6 +277,125 @@ func runC09(c *Ctx) {
 		})
 	}
 	r.Floor("R4", "stores to the outbound queue field", nSt, 1)
+}
+
+// socketLifecycleHelper: cc hands the socket (or its reader/writer) to a
+// module function that itself only performs connection set-up on it (TLS
+// wrapping and handshake, buffered reader/writer construction, Close) and
+// returns - never a data write.
+func (c *Ctx) socketLifecycleHelper(cc *ssa.CallCommon) bool {
+	callee := cc.StaticCallee()
+	if callee == nil || cc.IsInvoke() || !c.InModuleFn(callee) || callee.Package() != c.Client {
+		return false
+	}
+	a := c.A
+	derived := map[ssa.Value]bool{}
+	for i, arg := range cc.Args {
+		if i < len(callee.Params) && (c.derivesFromField(arg, a.IO) || c.derivesFromField(arg, a.Sock)) {
+			derived[callee.Params[i]] = true
+		}
+	}
+	if len(derived) == 0 {
+		return false
+	}
+	ok := true
+	for changed := true; changed; {
+		changed = false
+		funcInstrs(callee, func(in ssa.Instruction) {
+			x := callOf(in)
+			if x == nil {
+				// conversions / phis keep the derivation
+				switch t := in.(type) {
+				case *ssa.MakeInterface:
+					if derived[t.X] && !derived[t] {
+						derived[t], changed = true, true
+					}
+				case *ssa.ChangeInterface:
+					if derived[t.X] && !derived[t] {
+						derived[t], changed = true, true
+					}
+				case *ssa.Phi:
+					for _, e := range t.Edges {
+						if derived[e] && !derived[t] {
+							derived[t], changed = true, true
+						}
+					}
+				}
+				return
+			}
+			uses := x.IsInvoke() && derived[x.Value]
+			for _, arg := range x.Args {
+				if derived[arg] {
+					uses = true
+				}
+			}
+			if !uses {
+				return
+			}
+			switch calleeName(x) {
+			case "crypto/tls.Client", "bufio.NewReader", "bufio.NewWriter", "bufio.NewReadWriter":
+				if v, isV := in.(ssa.Value); isV && !derived[v] {
+					derived[v], changed = true, true
+				}
+			case "(*crypto/tls.Conn).Handshake", "(net.Conn).Close", "(*crypto/tls.Conn).Close":
+			default:
+				ok = false
+			}
+		})
+	}
+	return ok
+}
+
+// writerLeaf: the function that performs the socket write for writeFn: writeFn
+// itself when it calls WriteString on the connection writer, otherwise the
+// unexported client function that does and that writeFn calls exactly once,
+// outside loops, with its own line parameter. via is that call (nil if direct).
+func (c *Ctx) writerLeaf(writeFn *ssa.Function) (leaf *ssa.Function, via *ssa.Call) {
+	has := func(fn *ssa.Function) bool {
+		found := false
+		funcInstrs(fn, func(in ssa.Instruction) {
+			if cc := callOf(in); cc != nil && calleeName(cc) == "(*bufio.Writer).WriteString" && len(cc.Args) > 0 && c.derivesFromField(cc.Args[0], c.A.IO) {
+				found = true
+			}
+		})
+		return found
+	}
+	if writeFn == nil {
+		return nil, nil
+	}
+	if has(writeFn) {
+		return writeFn, nil
+	}
+	var sites []*ssa.Call
+	for _, cs := range CallSites(writeFn) {
+		call, ok := cs.(*ssa.Call)
+		if !ok || call.Call.IsInvoke() {
+			continue
+		}
+		cal := call.Call.StaticCallee()
+		if cal == nil || cal.Package() != c.Client || !c.InModuleFn(cal) || (cal.Object() != nil && cal.Object().Exported()) || !has(cal) {
+			continue
+		}
+		sites = append(sites, call)
+	}
+	if len(sites) != 1 || c.LoopDepth(sites[0].Block()) != 0 {
+		return nil, nil
+	}
+	cal := sites[0].Call.StaticCallee()
+	if len(c.staticCallers(cal)) != 1 {
+		return nil, nil
+	}
+	// the helper's string parameter is writeFn's own line parameter
+	okArg := false
+	for i, arg := range sites[0].Call.Args {
+		if pr, isP := arg.(*ssa.Parameter); isP && pr.Parent() == writeFn && isStringType(pr.Type()) && i < len(cal.Params) {
+			okArg = true
+		}
+	}
+	if !okArg {
+		return nil, nil
+	}
+	return cal, sites[0]
 }
 
 // enqueueIdentityRule: the value sent on the outbound queue is Raw's own
@@ -333,35 +481,104 @@ func (c *Ctx) afterRefusals(fn *ssa.Function, in ssa.Instruction) (bool, string)
 // connectGuards: in (inside the connect routine) is dominated by the
 // not-connected edge and by the server-non-empty edge.
 func (c *Ctx) connectGuards(in ssa.Instruction) (bool, string) {
+	gotConn, gotSrv := c.refusalFacts(in.Block(), 0)
+	if gotConn && gotSrv {
+		return true, "dominated by !connected and Server != \"\""
+	}
+	return false, fmt.Sprintf("not dominated by both refusals (already-connected=%v, empty-server=%v)", gotConn, gotSrv)
+}
+
+// refusalFacts: what is known at block b about the two refusal conditions of
+// the connect routine: the connected flag is false, Config.Server is not "".
+// Facts come from branch conditions on the flag / the address themselves, or
+// from the "no error" edge of a check helper (an unexported client function
+// returning one error whose every nil return is itself dominated by them).
+func (c *Ctx) refusalFacts(b *ssa.BasicBlock, depth int) (gotConn, gotSrv bool) {
 	a := c.A
-	gotConn, gotSrv := false, false
-	for _, cd := range CondsAt(in.Block()) {
+	for _, cd := range CondsAt(b) {
 		cd = unwrapNot(cd)
 		// connected flag load
 		if fv, _ := loadedField(cd.V); fv == a.Connected && !cd.True {
 			gotConn = true
 		}
-		if bo, ok := cd.V.(*ssa.BinOp); ok && (bo.Op == token.EQL || bo.Op == token.NEQ) {
-			var other ssa.Value
-			if s, ok := constString(bo.Y); ok && s == "" {
-				other = bo.X
-			} else if s, ok := constString(bo.X); ok && s == "" {
-				other = bo.Y
+		bo, ok := cd.V.(*ssa.BinOp)
+		if !ok || (bo.Op != token.EQL && bo.Op != token.NEQ) {
+			continue
+		}
+		var other ssa.Value
+		if s, ok := constString(bo.Y); ok && s == "" {
+			other = bo.X
+		} else if s, ok := constString(bo.X); ok && s == "" {
+			other = bo.Y
+		}
+		if other != nil {
+			if fv, _ := loadedField(other); fv == a.CfgServer && (bo.Op == token.NEQ) == cd.True {
+				gotSrv = true
 			}
-			if other != nil {
-				if fv, _ := loadedField(other); fv == a.CfgServer {
-					nonEmpty := (bo.Op == token.NEQ) == cd.True
-					if nonEmpty {
-						gotSrv = true
-					}
-				}
+		}
+		// err := conn.check(); err == nil
+		var errV ssa.Value
+		if isNilConst(bo.Y) {
+			errV = bo.X
+		} else if isNilConst(bo.X) {
+			errV = bo.Y
+		}
+		if call, isC := errV.(*ssa.Call); isC && depth < 2 && (bo.Op == token.EQL) == cd.True {
+			if h := c.checkHelper(call); h != nil {
+				hc, hs := c.checkHelperFacts(h, depth+1)
+				gotConn = gotConn || hc
+				gotSrv = gotSrv || hs
 			}
 		}
 	}
-	if gotConn && gotSrv {
-		return true, "dominated by !connected and Server != \"\""
+	return
+}
+
+// checkHelper: call is a plain call of an unexported client function that
+// returns exactly one error.
+func (c *Ctx) checkHelper(call *ssa.Call) *ssa.Function {
+	h := call.Call.StaticCallee()
+	if h == nil || call.Call.IsInvoke() || h.Package() != c.Client || !c.InModuleFn(h) || (h.Object() != nil && h.Object().Exported()) {
+		return nil
 	}
-	return false, fmt.Sprintf("not dominated by both refusals (already-connected=%v, empty-server=%v)", gotConn, gotSrv)
+	res := h.Signature.Results()
+	if res.Len() != 1 || typeString(res.At(0).Type()) != "error" {
+		return nil
+	}
+	return h
+}
+
+// checkHelperFacts: the refusal facts that hold at every return of h whose
+// result may be nil.
+func (c *Ctx) checkHelperFacts(h *ssa.Function, depth int) (bool, bool) {
+	allConn, allSrv, n := true, true, 0
+	funcInstrs(h, func(in ssa.Instruction) {
+		rt, ok := in.(*ssa.Return)
+		if !ok || len(rt.Results) != 1 {
+			return
+		}
+		mayNil := false
+		for _, o := range c.originsLocal(retVal(rt, 0)) {
+			if isNilConst(o) {
+				mayNil = true
+			} else if _, isCall := o.(*ssa.Call); !isCall {
+				if _, isMI := o.(*ssa.MakeInterface); !isMI {
+					mayNil = true // an error value of unknown nil-ness
+				}
+			}
+		}
+		if !mayNil {
+			return
+		}
+		n++
+		hc, hs := c.refusalFacts(rt.Block(), depth)
+		allConn = allConn && hc
+		allSrv = allSrv && hs
+	})
+	if n == 0 {
+		return false, false
+	}
+	return allConn, allSrv
 }
 
 // ---------------- C14 ----------------
